@@ -626,3 +626,24 @@ func (r *Run) finish(def *PropDef, known []KnownFinding, verifDir string, start 
 	fmt.Printf("%s: obligations=%d discharged=%d known=%d assumed=%d violations=%d wall=%.1fs\n", r.Prop, total, dis, len(knowns), assumed, len(vios), time.Since(start).Seconds())
 	return exit
 }
+
+// calleeFunc resolves a call to the declared function or method it names (nil for dynamic calls).
+func calleeFunc(info *types.Info, c *ast.CallExpr) *types.Func {
+	f, _ := calleeOf(info, c).(*types.Func)
+	return f
+}
+
+var declIndex = map[*packages.Package]map[types.Object]*ast.FuncDecl{}
+
+// declOf returns the declaration of fn inside p, or nil.
+func declOf(p *packages.Package, fn *types.Func) *ast.FuncDecl {
+	m := declIndex[p]
+	if m == nil {
+		m = map[types.Object]*ast.FuncDecl{}
+		for _, fd := range funcDecls(p) {
+			m[p.TypesInfo.Defs[fd.Name]] = fd
+		}
+		declIndex[p] = m
+	}
+	return m[fn.Origin()]
+}
